@@ -98,6 +98,14 @@ CHECKS = {
             'inputs and input list untouched; selectors return members in the documented number; seeded operators are '
             'independent of the global random state (including last-resort merge paths); composed expressions inherit the checks.',
             BASE_NOTE),
+    'C15': ('E5-crash', 'fault_enumeration',
+            'crash-point enumeration: every prefix k of a run x feedback lag / order x persistence moment, recover on a fresh instance, lock-step continuation',
+            'For 12 algorithm configurations (Sweeping, seeded Random incl. seed 0, Deduping wrappers, regularized evolution, '
+            'hill climb, NSGA2, NEAT, Deduping over evolution) every crash point 0..N with the last 0..2 feedbacks missing '
+            '(and out-of-order feedback), history persisted through JSON both as stored at proposal time and as left at the '
+            'crash: counts, population with fitness and generations are compared with the uninterrupted run, and both runs '
+            'are continued (exact proposals for history-determined algorithms).',
+            BASE_NOTE),
     'C02': ('E1-statespace', 'model_checking',
             'explicit-state BFS to closure over the real pg.List/pg.Dict with a lock-step plain list/dict reference model',
             'Every (reachable content, operation) pair over the list/dict API menu with all indices/slices/steps within '
